@@ -4,6 +4,7 @@ package c05
 
 import (
 	"fmt"
+	hdf5 "github.com/scigolib/hdf5"
 	"os"
 	"path/filepath"
 	"sort"
@@ -214,5 +215,66 @@ func linkedFromDense(m *hist.Model, path string) bool {
 
 func TestProp(t *testing.T) {
 	_ = indep.KnownDeviations
-	vt.Run(t, prop, vt.Sub[Case]{Prop: prop, Name: "files", Gen: gen, Run: run, Classify: classify}.WithBudget(2500, 15000))
+	vt.Run(t, prop,
+		vt.Sub[Case]{Prop: prop, Name: "files", Gen: gen, Run: run, Classify: classify}.WithBudget(2500, 15000),
+		vt.Func[MinCase]{Name: "minimal", One: runMin, Body: minBody})
+}
+
+// ---- minimal: the file hdf5.Create makes (an empty root group), decoded independently -------------------------------
+
+type MinCase struct {
+	Mode int `json:"mode"` // 0 CreateTruncate, 1 CreateExclusive
+}
+
+func runMin(c MinCase) vt.Verdict {
+	file := filepath.Join(vt.GetEnv().Scratch, fmt.Sprintf("c05-min-%d.h5", os.Getpid()))
+	os.Remove(file)
+	defer os.Remove(file)
+	mode := hdf5.CreateTruncate
+	if c.Mode == 1 {
+		mode = hdf5.CreateExclusive
+	}
+	f, err := hdf5.Create(file, mode)
+	if err != nil {
+		return vt.Bad("hdf5.Create: %v", err)
+	}
+	if err := f.Close(); err != nil {
+		return vt.Bad("Close of the created file: %v", err)
+	}
+	data, err := os.ReadFile(file)
+	if err != nil {
+		return vt.Bad("read back: %v", err)
+	}
+	ref, derr := indep.Decode(data, indep.TolerateAll())
+	if derr != nil && !indep.IsUnsupported(derr) {
+		return vt.Bad("file made by hdf5.Create is not decodable by the independent decoder: %v", derr)
+	}
+	if ref == nil || ref.Lookup("/") == nil {
+		return vt.Bad("file made by hdf5.Create: no root group found")
+	}
+	if ex := ref.CheckExtents(uint64(len(data))); len(ex) > 0 {
+		return vt.Bad("file made by hdf5.Create: %s", ex[0])
+	}
+	if ref.EOFAddr != uint64(len(data)) && ref.EOFAddr < uint64(len(data)) {
+		return vt.Bad("file made by hdf5.Create: superblock end-of-file address %d, the file holds %d bytes of structures", ref.EOFAddr, len(data))
+	}
+	return vt.Pass()
+}
+
+func minBody(t *testing.T) {
+	rec := vt.Recorder(prop)
+	if vt.GetEnv().Shard != 0 {
+		return
+	}
+	for m := 0; m < 2; m++ {
+		c := MinCase{Mode: m}
+		vt.Current(prop, "minimal", c)
+		v := vt.SafeRun(runMin, c)
+		rec.Case("minimal", c, true)
+		if v.Kind == vt.Violation {
+			p := vt.ReportViolation(prop, "minimal", c, v.Detail)
+			t.Errorf("%s (replay %s)", v.Detail, p)
+		}
+	}
+	rec.SetExhaustive("minimal", true)
 }
